@@ -71,8 +71,10 @@ func badBytes(class string, variant int, own json.RawMessage) (payload string, r
 	case "unknownid":
 		return `{"jsonrpc":"2.0","id":987654321,"result":{"content":[{"type":"text","text":"stray"}]}}`, false
 	case "idtype":
-		return []string{`{"jsonrpc":"2.0","id":{"x":1},"result":{}}`, `{"jsonrpc":"2.0","id":true,"result":{}}`, `{"jsonrpc":"2.0","id":[1],"result":{}}`,
-			`{"jsonrpc":"2.0","id":null,"error":{"code":-32700,"message":"parse"}}`}[variant%4], false
+		stray := `{"content":[{"type":"text","text":"stray"}]}`
+		return []string{`{"jsonrpc":"2.0","id":{"x":1},"result":` + stray + `}`, `{"jsonrpc":"2.0","id":true,"result":` + stray + `}`, `{"jsonrpc":"2.0","id":[1],"result":` + stray + `}`,
+			`{"jsonrpc":"2.0","id":null,"error":{"code":-32700,"message":"parse"}}`, `{"jsonrpc":"2.0","id":"someone-else","result":` + stray + `}`,
+			`{"jsonrpc":"2.0","id":` + string(own) + `.5,"result":` + stray + `}`}[variant%6], false
 	case "giant":
 		n := 100 * 1024
 		if variant%2 == 1 {
